@@ -40,7 +40,9 @@ def foreign_byteclasses(paths, allowed):
     for p in paths:
         for c in p.conds:
             if c[0] in ("holds", "nholds") and c[1][0] == "byteclass":
-                if c[1] not in allowed and _complement(c[1]) not in allowed:
+                # (which bytes the class contains is decided by the table, over the cells all tests of that byte generate;
+                #  here only: the byte looked at is one the function may look at)
+                if c[1][1] not in {a[1] for a in allowed}:
                     bad.append(c[1])
     return bad
 
@@ -170,7 +172,10 @@ def decide(ctx, rule, prog, key, rows, allowed, opaque=(), **kw):
         paths = sym.paths_of(b, prog, inline_all_loopfree=True, opaque=set(opaque) | {
             "konst_kernel::string::__from_u8_subslice_of_str", "konst_kernel::string::non_char_boundary_panic"})
         paths = canon_paths(paths)
-        mism, ncases, decided = table.compare(paths, rows, **kw)
+        foreign = foreign_byteclasses(paths, allowed)
+        vd = dict(kw.pop("variant_domain", None) or {})
+        vd.update(table.cellify(paths, rows))
+        mism, ncases, decided = table.compare(paths, rows, variant_domain=vd, **kw)
     except (table.Undecided, sym.TooManyPaths) as e:
         ctx.violation(rule, "%s|%s" % (prog.config, key), "table undecided: %s" % e, b.file())
         return
@@ -179,9 +184,9 @@ def decide(ctx, rule, prog, key, rows, allowed, opaque=(), **kw):
     for m in mism[:3]:
         ctx.violation(rule, "%s|%s|%s" % (prog.config, key, m.row.name if m.row else "-"),
                       "%s disagrees with std: %s" % (key, m), b.file(), detail={"mir": b.pretty()})
-    for bc in foreign_byteclasses(paths, allowed)[:2]:
+    for bc in foreign[:2]:
         ctx.violation("D3-BOUNDARY", "%s|%s" % (prog.config, key),
-                      "%s tests byte class {%s} on %s; a char-boundary test must be exactly {00-7F C0-FF} on the sliced index"
+                      "%s tests a byte class ({%s}) on %s, which is not a byte the table says it may look at"
                       % (key, byteset.show_ranges(bc[2]), sym.show(bc[1])), b.file())
     ctx.instance("D3-BOUNDARY", "%s|%s" % (prog.config, key))
 
